@@ -63,6 +63,21 @@ Definition check_utcoffset (t : tz) : res unit :=
   | None => Ok tt
   | Some m => if Z.abs m >? 14 * 60 then Err ValueError else Ok tt
   end.
+(* The same check on a utcoffset as CPython has it: a timedelta, given in microseconds east of UTC
+   (datetime.timezone admits every offset strictly between -24 h and +24 h with microsecond resolution).
+   _check_xsd_utcoffset: abs(offset) > timedelta(hours=14) or offset % timedelta(minutes=1) -> ValueError.
+   An offset that passes is a whole number of minutes, which is what [tz] holds. *)
+Definition check_utcoffset_us (o : Z) : res unit :=
+  if (Z.abs o >? 14 * 3600 * 1000000) || negb (o mod 60000000 =? 0) then Err ValueError else Ok tt.
+Definition tz_of_us (o : option Z) : res tz :=
+  match o with
+  | None => Ok None
+  | Some o => let* _ := check_utcoffset_us o in Ok (Some (o / 60000000))
+  end.
+(* xsd_repr of a value whose tzinfo carries the offset o: the guard, then the whole-minute path k.
+   (For Date and the gXxx types the SDK runs into_date() before the guard; both raise ValueError, so the
+   order is not observable.) *)
+Definition with_utcoffset {A} (o : option Z) (k : tz -> res A) : res A := let* t := tz_of_us o in k t.
 Definition pad2 (n : Z) : str := fmt_0d 2 n.
 (* the offset part of datetime.isoformat()/time.isoformat() *)
 Definition iso_tz (t : tz) : str :=
